@@ -103,7 +103,7 @@ def shrink(case):
         yield {"t": t2}
 
 
-KNOWN_PREDICATES = {"C01-literal-overlap": c01.KNOWN_PREDICATES["C01-literal-overlap"]}
+KNOWN_PREDICATES = {}
 
 
 def foam_leaf(rng):
